@@ -31,8 +31,12 @@ func c18paths(c *Ctx) {
 	w := mon.New(log, "W", mon.ShapePlain)
 	// the table the process starts with
 	baseMap := map[string]string{home: "~", cwd: "."}
-	prefixPool := []string{"/srv/data", "/srv/data/projects", "/srv", "/opt/build/agent-7/work", "/mnt/vol1/users/alice", "/var/lib/ci", "/srv/data/projects/deep/er", home + "/go/src", home + "/work", "/tmp/x y", "/ünï/cödé"}
-	replPool := []string{"~d", "~p", "$SRV", "~w", "~alice", "CI:", "~deep", "~gosrc", "~work", "~tmp", "~u"}
+	prefixPool := []string{"/srv/data", "/srv/data/projects", "/srv", "/opt/build/agent-7/work", "/mnt/vol1/users/alice", "/var/lib/ci", "/srv/data/projects/deep/er", home + "/go/src", home + "/work", "/tmp/x y", "/ünï/cödé",
+		// directory names are literal text, also when they look like shell variables (one of them is set in this process)
+		"/srv/$Recycle.Bin", "/data/ws$BUILD_7781_X/src", "/opt/$STAGE/app", "/var/${HOME}/x"}
+	replPool := []string{"~d", "~p", "$SRV", "~w", "~alice", "CI:", "~deep", "~gosrc", "~work", "~tmp", "~u", "~bin", "~ws", "~stage", "~brace"}
+	_ = os.Setenv("STAGE", "prod")
+	_ = os.Setenv("BUILD_7781_X", "")
 	rxPool := []rxMap{{expr: `^/mnt/vol[0-9]+/`, repl: "~vol/"}, {expr: `^/net/[a-z]+/export/`, repl: "~net/"}, {expr: `^/Users/[^/]+/`, repl: "~/"},
 		// rules that are not anchored: they also match further down a path that a plain mapping (or the home directory) already shortened
 		{expr: `/releases/v[0-9.]+/`, repl: "/rel/"}, {expr: `/node_modules/`, repl: "/nm/"}}
@@ -77,7 +81,7 @@ func c18paths(c *Ctx) {
 		nops := r.Intn(12)
 		added := map[string]bool{}
 		for i := 0; i < nops; i++ {
-			switch r.Intn(6) {
+			switch r.Intn(8) {
 			case 0, 1, 2:
 				k := r.Intn(len(prefixPool))
 				slog.AddKnownPathMapping(prefixPool[k], replPool[k])
@@ -102,6 +106,15 @@ func c18paths(c *Ctx) {
 					rxs = append(rxs, x)
 					hist = append(hist, "addrx "+x.expr)
 				}
+			case 5:
+				// a pattern that does not compile: whatever the registration does with it (today it panics, which the
+				// caller recovers), it is not a rule, and later queries work as before
+				func() {
+					defer func() { _ = recover() }()
+					slog.AddKnownPathRegexpMapping(gen.Pick(r, []string{"(unclosed", "[a-", "*star", "a{2,1}", "\\"}), "~bad")
+				}()
+				hist = append(hist, "addrx <invalid pattern>")
+				c.R.Add("invalid_patterns_registered", 1)
 			default:
 				if len(rxs) > 0 {
 					k := r.Intn(len(rxs))
@@ -127,6 +140,7 @@ func c18paths(c *Ctx) {
 			keys = append(keys, k)
 		}
 		nq := 12
+		c.R.AddEvals(int64(nq) - 1) // every query is judged on its own
 		for qi := 0; qi < nq; qi++ {
 			var p string
 			switch r.Intn(12) {
